@@ -1001,4 +1001,233 @@ theorem tribits_to_bits_eq (ts : List Nat) :
     rw [if_neg hc, if_neg hl]; rfl
 
 
+
+/-! ### `points_to_tribits`: the nested loop against `walk` / `rowOf` / `lastHit` -/
+
+def p2tInner (cp : List Int) (i start : Int) (j : Int) (x : List Int × Int × Bool) : PyM (List Int × Int × Bool) :=
+  match x with
+  | (out, last, m) => do
+    if (← getI cp i) == (← getB TRELLIS34_ENCODER_STATE_TRANSITION j) then
+      let last := Py.abs (modL (j - start) 255)
+      let out ← PyArr.setArr 0 255 out last i
+      pure (out, last, true)
+    else pure (out, last, m)
+
+def p2tOuter (cp : List Int) (i : Int) (x : List Int × Int) : PyM (List Int × Int) :=
+  match x with
+  | (out, last) => do
+    let r ← forEach (range2 (last * 8) (last * 8 + 8)) (out, last, false) (p2tInner cp i (last * 8))
+    if !r.2.2 then
+      let _ ← getI cp i
+      throw .assertion
+    pure (r.1, r.2.1)
+
+theorem p2t_shape (cp : List Int) : points_to_tribits cp
+    = (forEach (range2 0 49) (PyArr.zeros 49, (0 : Int)) (p2tOuter cp) >>= fun x => pure x.1) := by
+  unfold points_to_tribits p2tOuter p2tInner
+  rfl
+
+
+/-- the effect of the inner loop on `(out, last, matches)`: the last hit, if any, is written -/
+def applyHit (ii : Nat) (acc : Option Nat) (s0 : List Int × Int × Bool) : List Int × Int × Bool :=
+  match acc with
+  | none => s0
+  | some t => (s0.1.set ii (t : Int), (t : Int), true)
+
+theorem applyHit_len (ii : Nat) (acc : Option Nat) (s0 : List Int × Int × Bool) :
+    (applyHit ii acc s0).1.length = s0.1.length := by
+  cases acc <;> simp [applyHit]
+
+theorem range2_idxs' (a m : Nat) : range2 (a : Int) ((a : Int) + (m : Int)) = idxs a m := by
+  unfold range2 idxs
+  have : ((a : Int) + (m : Int) - (a : Int)).toNat = m := by omega
+  rw [this]
+  apply List.map_congr_left
+  intro j _
+  simp
+
+theorem inner_loop (cp : List Int) (ii p st : Nat) (hcp : getI cp (ii : Int) = .ok (p : Int))
+    (s0 : List Int × Int × Bool) (hii : ii < s0.1.length) :
+    ∀ (c off : Nat) (acc : Option Nat), off + c ≤ 8 →
+      forEach (idxs (st * 8 + off) c) (applyHit ii acc s0) (p2tInner cp (ii : Int) ((st * 8 : Nat) : Int))
+      = match rowFrom (st * 8 + off) c with
+        | .error _ => .error .index
+        | .ok row => .ok (applyHit ii (lastHitFrom p row off acc) s0) := by
+  intro c
+  induction c with
+  | zero => intro off acc _; simp [idxs, rowFrom, lastHitFrom]
+  | succ c ih =>
+    intro off acc hoc
+    rw [idxs_succ, forEach_cons]
+    unfold rowFrom indexR
+    have hb : p2tInner cp (ii : Int) ((st * 8 : Nat) : Int) ((st * 8 + off : Nat) : Int) (applyHit ii acc s0)
+        = match transition[st * 8 + off]? with
+          | none => .error .index
+          | some x => .ok (applyHit ii (if p == x then some off else acc) s0) := by
+      rcases hs : applyHit ii acc s0 with ⟨o1, l1, m1⟩
+      have hlen : o1.length = s0.1.length := by have := applyHit_len ii acc s0; rw [hs] at this; exact this
+      unfold p2tInner
+      simp only [hcp, ok_bind, getB_ofNat, trans_table]
+      cases hx : transition[st * 8 + off]? with
+      | none => rfl
+      | some x =>
+        simp only [ok_bind]
+        by_cases hpx : p = x
+        · subst hpx
+          have e : ((st * 8 + off : Nat) : Int) - ((st * 8 : Nat) : Int) = (off : Int) := by omega
+          have hm : Py.abs (modL (off : Int) 255) = (off : Int) := by
+            rw [modL_ofNat]; unfold Py.abs
+            rw [Nat.mod_eq_of_lt (show off < 255 by omega)]; simp
+          simp only [beq_self_eq_true, if_true, e, hm]
+          unfold PyArr.setArr
+          rw [normIndex_ofNat]
+          have h1 : ii < o1.length := by omega
+          have h2 : (0 : Int) ≤ (off : Int) ∧ (off : Int) ≤ 255 := by omega
+          simp only [h1, if_true, ok_bind, h2, and_self, pure_eq_ok]
+          congr 1
+          cases acc with
+          | none => simp only [applyHit] at hs ⊢; rw [hs]
+          | some t0 =>
+            simp only [applyHit] at hs ⊢
+            have : o1 = s0.1.set ii (t0 : Int) := (congrArg Prod.fst hs).symm
+            rw [this, List.set_set]
+        · have hne : ((p : Int) == (x : Int)) = false := by simp; omega
+          have hne2 : (p == x) = false := by simp [hpx]
+          simp only [hne, hne2, Bool.false_eq_true, if_false, pure_eq_ok]
+          rw [hs]
+    rw [hb]
+    cases hx : transition[st * 8 + off]? with
+    | none => rfl
+    | some x =>
+      simp only [ok_bind]
+      have := ih (off + 1) (if p == x then some off else acc) (by omega)
+      rw [show st * 8 + (off + 1) = st * 8 + off + 1 by omega] at this
+      rw [this]
+      cases rowFrom (st * 8 + off + 1) c with
+      | error e => rfl
+      | ok row => simp [lastHitFrom]
+
+
+theorem set_mid (A B : List Int) (x v : Int) : (A ++ x :: B).set A.length v = A ++ v :: B := by
+  induction A with
+  | nil => rfl
+  | cons a A ih => simp [ih]
+
+theorem rowFrom_err : ∀ (c s : Nat) (e : Dmr.Trellis.Err), rowFrom s c = .error e → e = .index := by
+  intro c
+  induction c with
+  | zero => intro s e h; simp [rowFrom] at h
+  | succ c ih =>
+    intro s e h
+    unfold rowFrom indexR at h
+    cases hx : transition[s]? with
+    | none => simp [hx] at h; exact h.symm
+    | some x =>
+      simp only [hx] at h
+      cases hr : rowFrom (s + 1) c with
+      | error e' => simp [hr] at h; rw [← h]; exact ih _ _ hr
+      | ok xs => simp [hr] at h
+
+theorem outer_loop : ∀ (n : Nat) (rest done : List Nat) (A B : List Int) (st : Nat),
+    A.length = done.length → B.length = n →
+    (forEach (idxs done.length n) (A ++ B, (st : Int)) (p2tOuter ((done ++ rest).map (fun x : Nat => (x : Int))))
+      >>= fun x => pure x.1)
+    = match walk n st rest with
+      | .ok ts => .ok (A ++ ts.map (fun x : Nat => (x : Int)))
+      | .error e => .error (errOf e) := by
+  intro n
+  induction n with
+  | zero =>
+    intro rest done A B st _ hB
+    have : B = [] := List.eq_nil_of_length_eq_zero hB
+    subst this
+    simp [idxs, walk]
+  | succ n ih =>
+    intro rest done A B st hA hB
+    obtain ⟨b0, B', rfl⟩ : ∃ b0 B', B = b0 :: B' := by
+      cases B with
+      | nil => simp at hB
+      | cons b0 B' => exact ⟨b0, B', rfl⟩
+    rw [idxs_succ, forEach_cons, bind_assoc]
+    have hr : range2 ((st : Int) * 8) ((st : Int) * 8 + 8) = idxs (st * 8 + 0) 8 := by
+      have := range2_idxs' (st * 8) 8
+      rw [show ((st * 8 : Nat) : Int) = (st : Int) * 8 by push_cast; rfl, show ((8 : Nat) : Int) = 8 from rfl] at this
+      rw [this]; rfl
+    cases rest with
+    | nil =>
+      have hb : p2tOuter ((done ++ []).map (fun x : Nat => (x : Int))) (done.length : Int) (A ++ b0 :: B', (st : Int))
+          = .error .index := by
+        unfold p2tOuter
+        simp only [hr]
+        rw [idxs_succ, forEach_cons]
+        have : p2tInner ((done ++ []).map (fun x : Nat => (x : Int))) (done.length : Int) ((st : Int) * 8)
+            ((st * 8 + 0 : Nat) : Int) (A ++ b0 :: B', (st : Int), false) = .error .index := by
+          unfold p2tInner
+          rw [List.append_nil, getI_cast_end]; rfl
+        rw [this]; rfl
+      rw [hb]; rfl
+    | cons p ps =>
+      have hcp : getI ((done ++ p :: ps).map (fun x : Nat => (x : Int))) (done.length : Int) = .ok (p : Int) :=
+        getI_cast_mid done ps p
+      have hin := inner_loop ((done ++ p :: ps).map (fun x : Nat => (x : Int))) done.length p st hcp
+        (A ++ b0 :: B', (st : Int), false) (by simp [hA]) 8 0 none (by omega)
+      simp only [applyHit] at hin
+      have hb : p2tOuter ((done ++ p :: ps).map (fun x : Nat => (x : Int))) (done.length : Int) (A ++ b0 :: B', (st : Int))
+          = match rowOf st with
+            | .error _ => .error .index
+            | .ok row => match lastHit row p with
+              | none => .error .assertion
+              | some t => .ok (A ++ (t : Int) :: B', (t : Int)) := by
+        unfold p2tOuter
+        simp only [hr]
+        rw [show ((st : Int) * 8) = ((st * 8 : Nat) : Int) by push_cast; rfl, hin]
+        unfold rowOf lastHit
+        rw [show st * 8 + 0 = st * 8 from rfl]
+        cases rowFrom (st * 8) 8 with
+        | error e => rfl
+        | ok row =>
+          simp only [ok_bind]
+          cases lastHitFrom p row 0 none with
+          | none => simp [applyHit, hcp]; rfl
+          | some t =>
+            simp only [applyHit, Bool.not_true, Bool.false_eq_true, if_false, pure_eq_ok, ok_bind]
+            rw [← hA, set_mid]
+      rw [hb]
+      unfold walk
+      cases hro : rowOf st with
+      | error e =>
+        have := rowFrom_err _ _ _ hro
+        subst this; rfl
+      | ok row =>
+        simp only []
+        cases lastHit row p with
+        | none => rfl
+        | some t =>
+          simp only [ok_bind]
+          have := ih ps (done ++ [p]) (A ++ [(t : Int)]) B' t (by simp [hA]) (by simpa using hB)
+          simp only [List.length_append, List.length_cons, List.length_nil, List.append_assoc, List.cons_append,
+            List.nil_append] at this
+          rw [this]
+          cases walk n t ps with
+          | error e => rfl
+          | ok ts => simp
+
+/-- `points_to_tribits`, every array of naturals: the model's `pointsToTribits` (49 passes from state 0; `AssertionError` for a
+point that is not in the row of the current state, `IndexError` for a short array) -/
+theorem points_to_tribits_eq (ps : List Nat) :
+    points_to_tribits (ps.map (fun x : Nat => (x : Int)))
+      = ofR (List.map (fun x : Nat => (x : Int))) (pointsToTribits ps) := by
+  rw [p2t_shape]
+  have hr : range2 0 49 = idxs 0 49 := range2_idxs 49
+  rw [hr]
+  have := outer_loop 49 ps [] [] (PyArr.zeros 49) 0 rfl (by simp [PyArr.zeros])
+  simp only [List.nil_append, List.length_nil] at this
+  rw [show ((0 : Nat) : Int) = 0 from rfl] at this
+  rw [this]
+  unfold pointsToTribits
+  cases walk 49 0 ps with
+  | error e => rfl
+  | ok ts => rfl
+
+
 end Dmr.Transl.Trellis
